@@ -192,6 +192,16 @@ func registerLib(e *Engine) {
 				s.assume(app("noNL", r.S))
 			}
 		}
+		// a constant format made of literal text, plain %s verbs applied to strings and plain %d verbs applied to
+		// ints IS the concatenation of those pieces (strconv.Itoa for the ints): the same string a chain of + builds
+		if f, isConst := constString(fv); isConst {
+			if ops, known := s.varargs(args[1]); known {
+				if cat, cond, ok := s.sprintfAsCat(f, ops); ok {
+					s.used("fmt.Sprintf with a constant format of literal text, plain %s applied to strings and plain %d applied to ints: the concatenation of the pieces")
+					s.assume(implies(cond, eq(r.S, cat.S)))
+				}
+			}
+		}
 		return []Val{r}
 	}
 	L["fmt.Errorf"] = func(s *State, site ssa.Instruction, args []Val) []Val {
@@ -486,4 +496,69 @@ func (s *State) monitorInv(site ssa.Instruction) (string, string, bool) {
 	v := x.eval(p.Body)
 	s.c.specErrors(x, mon.Where)
 	return v.S, mon.Pred + "(" + mon.Type + ")", true
+}
+
+// sprintfAsCat: the concatenation a format of literal text, %s and %d denotes, and the condition (on the dynamic
+// types of the operands) under which it does.
+func (s *State) sprintfAsCat(f string, ops []Val) (Val, string, bool) {
+	var pieces []Val
+	var conds []string
+	var lit strings.Builder
+	flush := func() {
+		if lit.Len() > 0 {
+			pieces = append(pieces, Val{T: strT, S: s.c.lit(lit.String())})
+			lit.Reset()
+		}
+	}
+	arg := 0
+	for i := 0; i < len(f); i++ {
+		if f[i] != '%' {
+			lit.WriteByte(f[i])
+			continue
+		}
+		i++
+		if i >= len(f) {
+			return Val{}, "", false
+		}
+		switch f[i] {
+		case '%':
+			lit.WriteByte('%')
+		case 's', 'd':
+			if arg >= len(ops) || kindOf(ops[arg].T) != kIface {
+				return Val{}, "", false
+			}
+			v := ops[arg]
+			arg++
+			flush()
+			pay := app("ipay", v.S)
+			if f[i] == 's' {
+				conds = append(conds, and(app("(_ is mkI)", v.S), app("(_ is pStr)", pay), eq(app("itag", v.S), fmt.Sprint(s.c.eng.tagOf(strT)))))
+				pieces = append(pieces, Val{T: strT, S: app("pstr", pay)})
+			} else {
+				// %d prints every integer kind in decimal, whatever its named type
+				conds = append(conds, and(app("(_ is mkI)", v.S), app("(_ is pInt)", pay)))
+				n := app("pint", pay)
+				s.c.declare("itoa", "(declare-fun itoa (Int) Str)")
+				it := app("itoa", n)
+				s.assume(implies(app("<=", "0", n), and(app("digits", it), app(">=", app("blen", it), "1"))))
+				s.assume(and(app("clean", it), app("noNL", it), app("noCTL", it), eq(app("vlen", it), app("blen", it))))
+				pieces = append(pieces, Val{T: strT, S: it})
+			}
+		default:
+			return Val{}, "", false
+		}
+	}
+	flush()
+	if arg != len(ops) {
+		return Val{}, "", false
+	}
+	if len(pieces) == 0 {
+		return Val{T: strT, S: "emp"}, "true", true
+	}
+	// the same association a chain of + has: ((p0 + p1) + p2) + ...
+	acc := pieces[0]
+	for _, p := range pieces[1:] {
+		acc = s.cat(acc, p)
+	}
+	return acc, and(conds...), true
 }
